@@ -209,6 +209,10 @@ def _optimise_operator(op):
         return key_list_leaf, same_leaf
 
     equal_nodes(op)
+    if len(nodes) == 0:
+        # no sum or product node at all (a chain of operators, a linear
+        # operator): nothing can be shared
+        return op
 
     key_temp = []
     key_list_op, same_op = equal_leaves(leaves)
